@@ -25,5 +25,3 @@ spec fn backpatched(a: AsmLine, b: AsmLine, table: Map<Seq<char>, u16>) -> bool 
         Some(l) => resolved(l, table) matches Some(rl) && b.stmt == with_label(a.stmt, rl),
     }
 }
-/// statement i carries line number i+1 (what makes "label line - own line - 1" an address difference)
-spec fn lines_ok(ast: Seq<AsmLine>) -> bool { forall|i: int| 0 <= i < ast.len() ==> (#[trigger] ast[i]).line as int == i + 1 }
